@@ -550,6 +550,34 @@ func (c *EvalCtx) localName(name string) (tv, bool) {
 				}
 			}
 		}
+		// a phi that merges the other candidates is the variable's value after the merge
+		for _, v := range cands {
+			ph, ok := v.(*ssa.Phi)
+			if !ok {
+				continue
+			}
+			covers := true
+			for _, o := range cands {
+				if o == v {
+					continue
+				}
+				if _, isConst := o.(*ssa.Const); isConst {
+					continue
+				}
+				found := false
+				for _, e := range ph.Edges {
+					if e == o {
+						found = true
+					}
+				}
+				if !found {
+					covers = false
+				}
+			}
+			if covers {
+				return tv{c.ex.val(st, v), v.Type()}, true
+			}
+		}
 		// otherwise the definition that comes last in program order among those already executed
 		var best ssa.Value
 		bestKey := [2]int{-1, -1}
